@@ -37,6 +37,13 @@ def assigned_names(stmts):
     return names
 
 
+class StepCut(Exception):
+    """the loop under a step contract would start another iteration"""
+
+    def __init__(self, env):
+        self.env = env
+
+
 class Loops:
     def __init__(self, ex, bm):
         self.ex = ex
@@ -122,9 +129,33 @@ class Loops:
             self.st.prove(f"{qn}/loop{ordn}:{phase}:{label}", self.bm.truth(v), kind=phase)
 
     def _assume_invs(self, lc, fr):
-        for label, inv in lc.invariants():
+        rest = []
+        for label, inv in lc.invariants():  # pass 1: `x == E` / `self.a == E` define the havoced location
+            if not self._bind_inv(inv, fr):
+                rest.append(inv)
+        for inv in rest:
             v = self.eval_text(inv, fr)
             self.st.assume(self.bm.truth(v))
+
+    def _bind_inv(self, text, fr):
+        node = self.parse(text)
+        if not (isinstance(node, ast.Compare) and len(node.ops) == 1 and isinstance(node.ops[0], ast.Eq)):
+            return False
+        lhs, rhs = node.left, node.comparators[0]
+        if isinstance(lhs, ast.Name) and lhs.id in fr.env and not any(
+                isinstance(n, ast.Name) and n.id == lhs.id for n in ast.walk(rhs)):
+            fr.env[lhs.id] = self.eval_text(ast.unparse(rhs), fr)
+            return True
+        if isinstance(lhs, ast.Attribute):
+            root = lhs
+            while isinstance(root, ast.Attribute):
+                root = root.value
+            if isinstance(root, ast.Name) and root.id == "self":
+                obj = self.eval_text(ast.unparse(lhs.value), fr)
+                if isinstance(obj, Ref):
+                    self.bm.set_attr(obj, lhs.attr, self.eval_text(ast.unparse(rhs), fr), direct=True)
+                    return True
+        return False
 
     def _havoc(self, s, fr, lc, extra=()):
         from .exec import UNBOUND
@@ -168,8 +199,29 @@ class Loops:
             conds.append(z3.And(*eqs, m1[i] < m0[i], m0[i] >= 0))
         self.st.prove(f"{qn}/loop{ordn}:decreases", mk_bool(z3.Or(*conds)), kind="decreases")
 
+    def while_step(self, s, fr, lc, ordn):
+        """step mode: the state at function entry is already arbitrary, so one execution of the body from it is
+        an arbitrary iteration.  A second arrival at the loop head ends the path with StepCut."""
+        from .exec import _Break, _Continue
+        c = self.ex.truth(self.ex.eval(s.test, fr), fr)
+        if not self.st.branch(c):
+            self.ex.exec_block(s.orelse, fr)
+            return
+        try:
+            self.ex.exec_block(s.body, fr)
+        except _Break:
+            return
+        except _Continue:
+            pass
+        c = self.ex.truth(self.ex.eval(s.test, fr), fr)
+        if self.st.branch(c):
+            raise StepCut(dict(fr.env))
+        self.ex.exec_block(s.orelse, fr)
+
     def while_with_contract(self, s, fr, lc, ordn):
         from .exec import _Break, _Continue
+        if lc.mode == "step":
+            return self.while_step(s, fr, lc, ordn)
         qn = self._common_head(s, fr, lc, ordn)
         self._check_invs(lc, fr, qn, ordn, "inv-init")
         which = self.st.choice(2, f"loop{ordn}")
